@@ -1,7 +1,19 @@
 /-
-  Refinement with loops, part 5: the model analysis of ANY supported statement means exactly what
-  the calculus derives, at every choice vector (`compute_refines`), by induction on the size of
-  the syntax tree.
+  Refinement with loops, part 5: the model analysis of ANY supported statement -- `while`,
+  `do-while` and counted `for` loops included, nested at will -- means exactly what the calculus
+  derives, at every choice vector (`compute_refines_partial`), by induction on the size of the
+  syntax tree (`compute_refG_aux`).
+
+  Layout of the development (`Mwp/Lemmas/RefineLoops*.lean`):
+  * `RefineLoopsClosure` : closure of dense matrices on names; block lemma, zero-row lemma;
+  * `RefineLoopsWhile`   : `whileFinish`, rule W pointwise;
+  * `RefineLoopsInv`     : the invariants `RefG` / `RefGL` (exit flag, ghost history of the delta
+                           graph, agreement with `sem`), sequences, `if`, `while`;
+  * `RefineLoopsCorr`    : `loop_correction` cell by cell under a weaker column hypothesis;
+  * `RefineLoopsSyn`     : syntactic facts about `Relation.fixpoint` results;
+  * `RefineLoopsFor`     : `forFinish`, rule L pointwise, the invariant for `.loop X b`;
+  * this file            : side conditions, the induction, the theorem, two counterexamples;
+  * `RefineLoopsGuards`  : `guardsFresh cmd` from a check on the syntax tree (`guardsPlain`).
 -/
 import Mwp.Lemmas.RefineLoopsFor
 import Mwp.Lemmas.RefineLoopFree
